@@ -303,9 +303,36 @@ def rule_head_only_reap(ctx, crate, rule="R-MULTI-HEAD-REAP"):
             zero = [tb for v, tb in t["targets"] if v == 0]
             if zero:
                 zsw.append((sb, zero[0], t["otherwise"]))
-    ctx.check(bool(zsw) and bool(pushes), rule, "reap-loop", b.name, K.fn_loc(b), "the reap loop tests is_zombie and records indices",
+    # iterator form: `ordering.iter().take_while(|&&i| self.members[i].is_zombie)` — the predicate closure returns the flag
+    tw_next = set()
+    for tw in b.calls(r"std::iter::Iterator::take_while"):
+        cl = None
+        for a in tw.args[1:]:
+            l = operand_local(a)
+            for d in b.defs().get(l, ()) if l is not None else ():
+                if d["kind"] == "assign" and d["rv"]["k"] == "agg" and d["rv"].get("ak") == "closure":
+                    cl = crate.bodies.get(d["rv"]["def"])
+            if cl is None and isinstance(a, dict) and a.get("k") == "const" and a.get("closure"):
+                cl = crate.bodies.get(a["closure"])
+        if cl is None or not b.slice_args(tw, [0]).has_field("ordering", MS):
+            continue
+        rets = [d for d in cl.defs().get(0, ()) if d["kind"] in ("assign", "call")]
+        good = bool(rets)
+        for d in rets:
+            sl = cl.slice_rv(d["bb"], {"lhs": d["lhs"], "rv": d["rv"]}) if d["kind"] == "assign" else cl.slice_args(d["call"])
+            if not sl.has_field("is_zombie", "multi::MultiStateMember") or [a for a in sl.atoms if a[0] in ("unop", "binop")]:
+                good = False
+        if good:
+            for nx in b.calls(r"std::iter::Iterator::next"):
+                if "TakeWhile" in (nx.callee.get("self_ty") or "") + " ".join(nx.callee.get("targs") or []):
+                    tw_next.add(nx.bb)
+    ctx.check((bool(zsw) or bool(tw_next)) and bool(pushes), rule, "reap-loop", b.name, K.fn_loc(b), "the reap loop tests is_zombie and records indices",
               "no reap loop testing is_zombie was found", cfg)
     for c in pushes:
+        if tw_next and any(c.bb in b.reach_after(nb) and nb in b.reach_after(c.bb) for nb in tw_next):
+            ctx.ok(rule, "reap-only-zombies", b.name, c.loc(), "indices come from take_while(is_zombie) over the ordering", cfg)
+            ctx.ok(rule, "stop-at-first-live", b.name, c.loc(), "take_while stops at the first non-zombie", cfg)
+            continue
         ok = any(b.edge_dominates((sb, nz), c.bb) for sb, z, nz in zsw)
         ctx.check(ok, rule, "reap-only-zombies", b.name, c.loc(), "only zombie members are recorded for reaping",
                   "a live member can be recorded for reaping", cfg)
